@@ -60,11 +60,11 @@ func coqDiagKind(k analysis.DiagnosticKind) string {
 func coqSeverity(s analysis.Severity) string {
 	switch s {
 	case analysis.ErrorSeverity:
-		return "SevError"
+		return "OSevError"
 	case analysis.WarningSeverity:
-		return "SevWarning"
+		return "OSevWarning"
 	}
-	return fmt.Sprintf("(SevOther %d)", s)
+	return fmt.Sprintf("(OSevOther %d)", s)
 }
 
 type checkObs struct {
